@@ -14,6 +14,7 @@ func init() {
 		c20LockDiscipline(c)
 		c20MapDiscipline(c)
 		c20NoSharing(c)
+		c20Snapshot(c, "C20.2b")
 		c20Bounds(c)
 		c20Emitter(c)
 		c20Ids(c, "C20.5")
@@ -263,10 +264,19 @@ func c20NoSharing(c *core.Ctx) {
 		for _, r := range returnsIn(m) {
 			for _, res := range r.Stmt.Results {
 				e := ast.Unparen(res)
-				for {
+				for depth := 0; depth < 6; depth++ {
 					if se, ok := e.(*ast.SliceExpr); ok {
 						e = ast.Unparen(se.X)
 						continue
+					}
+					// through a local: result := s.elements; return result
+					if id, isId := e.(*ast.Ident); isId {
+						if d, k := m.SingleDef(id); k && d != ast.Expr(id) {
+							if _, isT := d.(*core.TupleElem); !isT {
+								e = ast.Unparen(d)
+								continue
+							}
+						}
 					}
 					break
 				}
@@ -842,5 +852,45 @@ func c20Ids(c *core.Ctx, R string) {
 			}
 		}
 		c.Check(R, "utils.(*Yeast).Yeast/one-critical-section", y.Pos(), ok && n >= 4, keyf("%d accesses of clock/prev/seed, all under one mutex (%q): %v", n, lock, ok))
+	}
+}
+
+// c20Snapshot — C18.2b / C01.8b: the value AllAndClear hands out is a fresh copy.
+func c20Snapshot(c *core.Ctx, R string) {
+	c.Rule(R, "the batch taken from a buffer is a snapshot: Slice.AllAndClear returns the result of all() (make + copy) — never the live backing array, which clear() keeps (elements[:0]) and later Push calls overwrite while the batch is still in flight")
+	u := c.Fn(R, "types.(*Slice).AllAndClear")
+	if u == nil {
+		return
+	}
+	ok := false
+	for _, r := range returnsIn(u) {
+		if len(r.Stmt.Results) == 1 {
+			_, key := u.AsCall(r.Stmt.Results[0])
+			ok = key == "types.(*Slice).all"
+		}
+	}
+	c.Check(R, "types.(*Slice).AllAndClear/returns-fresh-copy", u.Pos(), ok, "the returned slice is all()'s copy")
+	if all := c.Fn(R, "types.(*Slice).all"); all != nil {
+		mk, cp, ret := false, false, false
+		var res types.Object
+		for _, a := range assignsIn(all, func(l ast.Expr) bool { _, isId := l.(*ast.Ident); return isId }) {
+			if ce, isC := ast.Unparen(a.Rhs).(*ast.CallExpr); isC && calleeNameOf(ce) == "make" && len(ce.Args) >= 2 {
+				if le, isL := ast.Unparen(ce.Args[1]).(*ast.CallExpr); isL && calleeNameOf(le) == "len" && fieldOf(all.Info(), le.Args[0]) == "Slice.elements" {
+					mk = true
+					res = core.ObjOf(all.Info(), a.Lhs)
+				}
+			}
+		}
+		for _, cl := range all.Calls() {
+			if cl.Name == "copy" && cl.Callee == nil && res != nil && core.ObjOf(all.Info(), cl.Arg(0)) == res && fieldOf(all.Info(), cl.Arg(1)) == "Slice.elements" {
+				cp = true
+			}
+		}
+		for _, r := range returnsIn(all) {
+			if len(r.Stmt.Results) == 1 && res != nil && core.ObjOf(all.Info(), r.Stmt.Results[0]) == res {
+				ret = true
+			}
+		}
+		c.Check(R, "types.(*Slice).all/make(len)+copy+return", all.Pos(), mk && cp && ret, "a new array of the full length, filled from elements, is returned")
 	}
 }
